@@ -14,6 +14,29 @@ import BS.Impl.CatchUpPlan
 
 open BS BS.Impl BS.Gen
 
+def toViewG (c : CacheSess) : CacheView :=
+  { bucket_size := c.B, data := c.d.view, lines_to_skip := c.skip, samples_in_bin := c.inBin,
+    ts_sum := c.tsSum, resample_state := c.vSum }
+
+def runProcessG (st : Store) (c : CacheSess) (r : R ((CacheView × List CatchUp) × Unit)) : R (Store × CacheSess) :=
+  match r with
+  | .error f => .error f
+  | .ok ((v, acts), _) =>
+    let c' : CacheSess := { c with skip := v.lines_to_skip, inBin := v.samples_in_bin, tsSum := v.ts_sum, vSum := v.resample_state }
+    match acts with
+    | [] => .ok (st, c')
+    | [CatchUp.push rts rline] =>
+      match pushData st c.d rts rline with
+      | .error f => .error f
+      | .ok (st', d') => .ok (st', { c' with d := d' })
+    | _ => .error .panic
+
+instance : Repr Sampler where
+  reprPrec s _ := s!"(bucket={s.bucket} tsSum={s.tsSum} vSum={s.vSum} sampled={s.sampled})"
+
+deriving instance DecidableEq for BS.Impl.Store
+deriving instance Repr for BS.Impl.Store
+
 def vals64 : List Nat :=
   [0, 1, 2, 3, 9, 10, 11, 65533, 65534, 65535, 65536, 65537, 65544, 65545, 65546, 131070, 131071, 4294967296,
    9223372036854775808, 18446744073709486080, 18446744073709486081, 18446744073709486082,
@@ -146,8 +169,31 @@ def main : IO Unit := do
     let caches := [mk 0 0 none, mk 1 1 (some 12), mk 2 1 (some 14), mk 3 1 (some 100008), mk 5 2 (some 100009), mk 9 2 (some 300000), mk 12 3 (some 200021)]
     let cases := (pairs (pairs srcs caches) [1, 2, 3, 4, 10]).map fun ((s, c), B) => (B, s, c)
     firstDiff s!"add_missing_data(p={p})" (cases.map fun (B, s, c) => ((B, s.dataLen, c.dataLen, s.lastTime, c.lastTime), s, c))
-      (fun ((B, _), s, c) => add_missing_data s.view ⟨B, c.view, 0⟩)
+      (fun ((B, _), s, c) => add_missing_data s.view { bucket_size := B, data := c.view, lines_to_skip := 0 })
       (fun ((B, _), s, c) => (catchUpPlan s c B).map fun a => (a, ()))
+  -- process: accumulator states x bucket sizes x timestamps (incl. sums near the u64 / u128 limits)
+  let dsess : DataSess := { p := 4, hdrLen := 0, ihdrLen := 4, dataLen := 0, entries := [], lastFull := none, lastTime := none }
+  let accs : List CacheSess := (pairs (pairs [0, 1, 2] [0, 3, 18446744073709551615, 36893488147419103230]) (pairs [0, 5, 18446744073709551000] [0, 1, 2])).flatMap
+    fun ((inBin, tsSum), (vSum, skip)) => [1, 2, 3, 0].map fun B => ({ B := B, d := dsess, inBin := inBin, tsSum := tsSum, vSum := vSum, skip := skip } : CacheSess)
+  let st0 : Store := { data := some [], index := some [] }
+  firstDiff "DownSampledData::process" ((pairs accs [0, 7, 18446744073709551615]).map fun (c, t) => ((c.B, c.inBin, c.tsSum, c.vSum, c.skip, t), c))
+    (fun ((_, _, _, _, _, t), c) => runProcessG st0 c (DownSampledData_process (toViewG c) t [200, 1, 0, 0]))
+    (fun ((_, _, _, _, _, t), c) => cacheProcess st0 c t [200, 1, 0, 0])
+  let samplers : List Sampler := (pairs (pairs [1, 2, 3] [0, 1, 2]) (pairs [0, 9, 18446744073709551615, 36893488147419103230] [0, 5, 18446744073709551000])).map
+    fun ((b, n), (tsum, vsum)) => ({ bucket := b, p := 4, tsSum := tsum, vSum := vsum, sampled := n, out := [⟨1, [1, 2, 3, 4]⟩] } : Sampler)
+  let runS := fun (s : Sampler) (r : R ((Sampler × List CatchUp) × Unit)) => (match r with
+    | .error _ => "fault"
+    | .ok ((s', acts), _) => match acts with
+      | [] => s!"cont {s'.tsSum} {s'.vSum} {s'.sampled} {repr s.out}"
+      | [CatchUp.outTs t, CatchUp.outItem v] => s!"cont {s'.tsSum} {s'.vSum} {s'.sampled} {repr (s.out ++ [⟨t, linEncode s.p v⟩])}"
+      | _ => "fault")
+  let showP := fun (r : PRes Sampler) => (match r with
+    | .cont s' => s!"cont {s'.tsSum} {s'.vSum} {s'.sampled} {repr s'.out}"
+    | .fault => "fault"
+    | _ => "other")
+  firstDiff "Sampler::process" ((pairs samplers [0, 7, 18446744073709551615]).filter (fun (s, t) => (s.tsSum + t) / s.bucket < 2^64) |>.map fun (s, t) => ((s.bucket, s.sampled, s.tsSum, s.vSum, t), s))
+    (fun ((_, _, _, _, t), s) => (.ok (runS s (Sampler_process s t [200, 1, 0, 0])) : R String))
+    (fun ((_, _, _, _, t), s) => .ok (showP (samplerProc s t [200, 1, 0, 0])))
   let ranges : List (Option (Nat × Nat)) := none :: (pairs [0, 5, 65535] [5, 65535, 18446744073709551615]).filterMap fun (a, b) => if a ≤ b then some (some (a, b)) else none
   firstDiff "TimeRange::update" (pairs ranges vals64) (fun (r, t) => TimeRange_update r t)
     (fun (r, t) => match rangeUpdate r t with | .ok r' => .ok (r', ()) | .error _ => .error (.err "TimeNotAfterLast"))
